@@ -3,9 +3,10 @@ import TarsModel.Driver.Wire
 
 open Tars.Driver
 
+/-- model driver for the `wire` stream (C02): `tm_wire wire` -/
 def main (args : List String) : IO UInt32 := do
   let stdin ← IO.getStdin
   let stdout ← IO.getStdout
   match args with
   | ["wire"] => loopPure stdin stdout Wire.handle; return 0
-  | _ => IO.eprintln "usage: tarsmodel <stream>"; return 2
+  | _ => IO.eprintln "usage: tm_wire wire"; return 2
